@@ -52,6 +52,9 @@ CLAIMED = {
     "C17": ("exploration", "DESIGN.md 4 (C17)", "seeded deterministic simulation: directory layouts of loose files, sub-directories and reference-encoded VOL/CLM archives with overlapping names; directory listing order is a seeded permutation at the readdir seam; layout model holding the set of allowed answers",
             "Seeded layouts (0..4 loose files, sub-directories incl. ones named *.vol / *.clm, 0..5 archives with members drawn from a shared name pool in several letter cases) are queried through ResourceManager (GetResourceStream with and without archive access, rooted paths, type and pattern listings, FindContainingArchivePath, GetArchiveFilenames) and through each archive object (Contains/GetIndex agreement, case- and './'-blindness, GetIndex(GetName(i)) = i, out-of-range indices on every per-member call). The order in which the directory lists entries - which decides archive load order - is permuted per run at the readdir seam; where the property leaves a choice (which archive serves a duplicated name) any allowed answer is accepted. Sampling evidence, not proof.",
             "Type listings are not compared in worlds where a loose file's extension matches the query only in another letter case (property silent); pattern queries are letter-only literals so they cannot match the directory part of a path."),
+    "C18": ("exploration", "DESIGN.md 4 (C18)", "seeded deterministic simulation, twin-environment differential: every serialising/parsing scenario executed twice in one process under environments differing in heap fill, stack fill, heap shift, input order, path spelling, readdir order and I/O chunking; outputs and canonical parse dumps must be identical",
+            "Each run executes 2..5 scenarios (objects from the library's own constructors and factories written out; VOL and CLM creation incl. extracted WAVs; map, bitmap, custom tileset and PRT read + rewrite) twice: the allocator seam fills fresh heap memory with a different byte, the stack is scribbled with a different byte before every library call, junk allocations shift heap addresses, the input list is permuted and spelled differently, the directory lists in another order and short-read/short-write/EINTR configurations differ. Every output byte string and every canonical dump of a parsed structure must be equal between the two passes. Sampling evidence, not proof.",
+            "Detects dependence on stale memory only when it changes an output or a dumped field; objects are heap-allocated so that the allocator seam controls their initial bytes; a default-initialised (not value-initialised) aggregate ArtFile is the caller's choice and is not asserted."),
     "C20": ("fault_enumeration", "DESIGN.md 4 (C20)", "deterministic simulation on a simulated disk with sparse multi-GiB inputs and sink outputs: exhaustive enumeration of the finite list of at-limit and beyond-limit quantities x {destination absent, pre-existing}, refusal and destination-snapshot oracle",
             "The finite case list (VOL members of 2^31, 2^31+1, 2^32-1, 2^32, 2^32+5 bytes; member sets whose last block offset crosses 2^32; WAV sets whose last data offset crosses 2^32; CLM names of 9 and 12 characters; containers of 128/256/300/32768/65536/70000 elements against 8/16-bit signed and unsigned prefixes; every layer-list length 0..130 against every 7-bit count) is enumerated completely in both tiers, each case with the destination absent and pre-existing; sparse files and a write sink at the libc seam make 2-5 GiB inputs cost no disk blocks. Oracle: does not fit => exception; for VOL the disk snapshot before = after. The seed only varies names, order and transparent faults.",
             "That at-limit quantities which DO fit succeed is not asserted (an over-eager refusal is not a C20 violation; C01/C03 guard the success path); thorough additionally runs the fitting cases for context."),
